@@ -184,7 +184,7 @@ def stateful(ctx):
                 for sign in (1, -1):
                     code = sign * (10 * mm + 0.5)
                     shx.add_atom(name='X%d%s' % (mm, 'p' if sign > 0 else 'n'), coordinates=[0.4, 0.5, 0.6], element=ELEMS[0], sof=code, uvals=[0.04, 0.0, 0.0, 0.0, 0.0, 0.0])
-                    a_new = shx.atoms.all_atoms[-1]
+                    a_new = [a_ for a_ in shx.atoms.all_atoms if a_.name == 'X%d%s' % (mm, 'p' if sign > 0 else 'n')][-1]
                     ev += 1
                     exp = rule(code, fv_ext)
                     if exp is not None and abs(a_new.occupancy - exp) > 1e-9:
